@@ -75,6 +75,8 @@ def gen_config(r, index=None, subset_cycle=False, force_mode=None):
             'folders': folder_layout(r, outputs),
             'junk': r.random() < 0.15,
             'lmdb': mode == 'ocr' and 'lines' in outputs and r.random() < 0.25,
+            'odd_out_name': r.random() < 0.1,          # output root with glob / regex metacharacters in its name
+            'input_mtime': r.choice([None, None, None, None, 'future', 'touch_before_resume']),
             'late_pages': [pages[-1]['id']] if (len(pages) >= 2 and r.random() < 0.1 and not pages[-1].get('no_xml')) else [],
             'clock': {'inc': [r.choice([0.001, 0.05, 2.0]) for _ in range(3)],
                       'jumps': {str(r.randint(0, 30)): r.choice([-3600.0, 86400.0, -1.5])} if r.random() < 0.3 else {}}}
@@ -132,6 +134,16 @@ def make_plan(seed, tier, index, n_layer_a, subset_cycle):
         w = total_writes(plan)
         ncrash = r.choice([1, 2, 2, 3, 3])
         plan['runs'] = [run_spec(r, plan, crash_at=r.randint(0, max(1, w - (0 if k == 0 else r.randint(0, w))))) for k in range(ncrash)]
+        if len(plan['outputs']) >= 2 and not plan['paths_in_config'] and not plan.get('lmdb') and r.random() < 0.12:
+            # the killed runs were started with fewer requested output kinds than the resume
+            # (only a kind that --skip-processed consults may be added later: line crops are tied to the other
+            # outputs of their page by the write order, so adding them to a finished batch is a different request,
+            # not a resume)
+            tracked = [k for k in plan['outputs'] if k != 'lines']
+            drop = r.choice(tracked) if len(tracked) >= 2 else None
+            if drop:
+                for rs in plan['runs']:
+                    rs['outputs'] = [k for k in plan['outputs'] if k != drop]
         for rs in plan['runs']:
             if r.random() < 0.2:
                 # instead of (or in addition to) a kill: a transient failure of one page - an exception while
@@ -169,6 +181,17 @@ def missing_kinds(exp_p, snap):
     return [k for k in KINDS if k in exp_p and any(f not in snap for f in exp_p[k])]
 
 
+def touch_inputs(world, offset):
+    """Gives every input file a new modification time (re-synced folder, scanner with a wrong clock)."""
+    import time as _t
+    for src in (world.in_img, world.in_xml, world.in_logits):
+        if src:
+            for f in os.listdir(src):
+                t = _t.time() + offset
+                os.utime(os.path.join(src, f), (t, t))
+    world.res.fault('input_mtimes_changed')
+
+
 def seed_junk(world, out):
     """Unrelated files that already sit in the output folders (a desktop database, a note): they must be
     ignored and must survive."""
@@ -188,6 +211,9 @@ def check_history(world, tree, runs, gt_snap, exp, label):
     and the nothing-left run) and checks every run against the resume model.
     Returns the first Violation or None."""
     plan, res = world.plan, world.res
+    if plan.get('odd_out_name'):
+        tree = tree + ' [1890] (a+b)'
+        res.probe('output_root_with_metacharacters')
     out = os.path.join(world.root, tree)
     seed_junk(world, out)
     ids = [p['id'] for p in plan['pages'] if not p.get('no_xml')]
@@ -205,6 +231,11 @@ def check_history(world, tree, runs, gt_snap, exp, label):
         if late and role == 'resume':
             world.restore_inputs()
             late = set()
+        if role == 'resume' and plan.get('input_mtime') == 'touch_before_resume':
+            touch_inputs(world, 0.0)
+        run_kinds = spec.get('outputs')
+        if run_kinds is not None:
+            res.probe('earlier_run_requested_fewer_outputs')
         before = snapshot(out)
         bm = tuple(page_bitmap(exp[p], before) for p in ids)
         bitmaps.append(bm)
@@ -260,6 +291,8 @@ def check_history(world, tree, runs, gt_snap, exp, label):
             continue
         # the process was not killed before finishing its writes
         work_left = [p for p in present if p not in complete_before]
+        if run_kinds is not None:
+            work_left = [p for p in present if not is_complete({k: fs for k, fs in exp[p].items() if k in run_kinds}, before)]
         if not proc.killed_at_exit and proc.exit != 'ok':
             V = kernel.Violation('C17', 'unclean-exit', 'unclean-exit|%s|%s' % (proc.exit, 'work-left' if work_left else 'nothing-left'),
                                  '%s run %d (%s): process ended with %s (%s)' % (label, ri, role, proc.exit, getattr(proc, 'exc_text', '')))
@@ -273,7 +306,8 @@ def check_history(world, tree, runs, gt_snap, exp, label):
         failed = set(getattr(proc, 'failed_pages', []) or [])
         if failed:
             res.probe('page_failed_transiently')
-        bad = [p for p in present if not is_complete(exp[p], after) and p not in failed]
+        exp_run = exp if run_kinds is None else {p: {k: fs for k, fs in exp[p].items() if k in run_kinds} for p in exp}
+        bad = [p for p in present if not is_complete(exp_run[p], after) and p not in failed]
         if bad:
             p = bad[0]
             V = kernel.Violation('C17', 'incomplete', 'incomplete-after-clean-run|missing=%s' % '+'.join(missing_kinds(exp[p], after)),
@@ -283,7 +317,7 @@ def check_history(world, tree, runs, gt_snap, exp, label):
             V = kernel.Violation('C17', 'repeated-work', 'nothing-left-run-did-work', '%s run %d: nothing was left but %s processed / %d writes' % (label, ri, processed, proc.writes_done))
             break
         # (2) equality with the uninterrupted run (not yet for a run in which a page failed transiently)
-        if gt_snap is not None and not failed and not late:
+        if gt_snap is not None and not failed and not late and run_kinds is None:
             for f, dg in gt_snap.items():
                 if f == 'transcriptions.txt':
                     continue
@@ -324,6 +358,8 @@ def execute(plan, world_cls=PfWorld):
         world.setup_inputs()
         world.install()
         exp = world.expected_files()
+        if plan.get('input_mtime') == 'future':
+            touch_inputs(world, 86400.0)
         ids = [p['id'] for p in plan['pages'] if not p.get('no_xml')]
         if len(ids) < len(plan['pages']):
             res.probe('image_without_xml_skipped')
